@@ -67,8 +67,10 @@ func spell(t *sim.Tape, target, refDir string, relativeOK bool) string {
 		}
 		return s
 	}
-	style := t.Choose(9)
+	style := t.Choose(10)
 	switch style {
+	case 9: // backslashes: ordinary characters on this platform, never separators
+		return []string{`..\..\secret.txt`, `a\b.jet`, `\t.jet`, `a\..\t.jet`, `.\t.jet`, `a/..\../t.jet`}[t.Choose(6)]
 	case 8: // the whole name is a dot form (resolves to the referrer's directory or the root)
 		return []string{".", "..", "./", "../", "", "/.", "/..", "./.", "a/.."}[t.Choose(9)]
 	case 0: // absolute clean
